@@ -167,6 +167,8 @@ def joint_stack(draw, p, cls):
         j['damping'] = draw(num(0.0, 2.0))
       if draw(st.integers(0, 3)) == 0:
         j['armature'] = draw(num(0.0, 0.5))
+    if p.get('armature_only') and draw(st.integers(0, 2)) == 0:
+      j['armature'] = draw(num(0.0, 0.5))   # reflected rotor inertia is conservative: allowed without the other passive terms
     if p['springs'] and draw(st.integers(0, 3)) == 0:
       j['stiffness'] = draw(num(0.0, 20.0))
     lim = p['limits']
